@@ -29,6 +29,11 @@ var BVAxioms = []struct{ Name, Script string }{
 (define-fun bit ((v (_ BitVec 32)) (k (_ BitVec 32))) Bool (= ((_ extract 0 0) (bvashr v k)) #b1))
 (assert (not (= (bit (bvor w (bvshl #x00000001 s)) t) (or (= s t) (bit w t)))))
 (check-sat)`},
+	{"bytebit32", `(declare-const w (_ BitVec 32)) (declare-const s (_ BitVec 32)) (declare-const t (_ BitVec 32))
+(assert (and (bvule s #x00000018) (bvule t #x00000007)))
+(define-fun bit ((v (_ BitVec 32)) (k (_ BitVec 32))) Bool (= ((_ extract 0 0) (bvashr v k)) #b1))
+(assert (not (= (bit (bvand (bvashr w s) #x000000ff) t) (bit w (bvadd s t)))))
+(check-sat)`},
 	{"clrbit32", `(declare-const w (_ BitVec 32)) (declare-const s (_ BitVec 32)) (declare-const t (_ BitVec 32))
 (assert (and (bvule s #x0000001f) (bvule t #x0000001f)))
 (define-fun bit ((v (_ BitVec 32)) (k (_ BitVec 32))) Bool (= ((_ extract 0 0) (bvashr v k)) #b1))
